@@ -191,6 +191,30 @@ CHECKS = {
    note="Known findings D8, D14-non-array (pinned by the repository's TestIPFSContext), D14-single-member, D31. Document-order vs canonical-order indices are compared up to index values (cf. D13).",
    technique="Coq proof over a JSON-LD subset model + faithful resolver models (with refutation witnesses) + per-run two-sided model/implementation differential",
    design="5 C11"),
+ "C06": dict(
+   text="Theorems (Properties/C06.v, 14, all closed; Keccak, DID->ID, Poseidon arbitrary, no injectivity assumed): C06_complete (for every credential and every option object incl. nil, the claim produced at "
+        "issuance passes the binding check), C06_readback (re-deriving with the options read back from the claim reproduces the claim, all positions x updatable x version x nonce), C06_exact (accepted "
+        "claims are exactly the claims the credential yields under some options), C06_sound_meta(_rejects) (any change to an accepted claim that keeps the read-back options is rejected), "
+        "C06_option_fields_free (the exact boundary: nonce/version/updatable are read back from the claim itself), C06_sound_doc (two credentials accepted for one claim have equal kind, schema hash, Merkle "
+        "root or data slots, expiration, subject id), C06_sound_doc_type / _entries / _entries_values (equal type IRI / entry multisets, or an explicit truncated-Keccak / value-encoding / Poseidon Collision; "
+        "via SMT.Sound.add_all_root_binding), C06_first(_accept) (VerifyProof runs the binding check before any proof-type specific step, for every proof type). Per run 1700 implementation evaluations / "
+        "1421 model evaluations: option grid completeness, EVERY single-site modification of the credential document and of the claim, BJJ and SMT bundles end to end, multi-proof ordering, two-loader histories.",
+   note="Completeness is for equal merklizer options at issuance and verification (O7). Known finding D29 (trailing-NUL strings hash alike). The merklizer enters as a recorded view tied per run.",
+   technique="Coq proof (read-back idempotence, exactness, soundness modulo explicit collisions) + per-run single-site-modification differential",
+   design="5 C06"),
+ "C12": dict(
+   text="Totality theorems (Properties/C12.v, 22, all closed) over control skeletons in which every nil dereference, every make with a decoded count, every nil hash element and every known library panic "
+        "is an explicit Panic outcome, quantified over ALL values the decoders can deliver: hash_value_total (a field element or an error, never (nil,nil)), merklize_tail_total, entries_from_rdf_total / "
+        "walk_fuel_bound / cycles_are_errors (via RDF/ThTotal.v), rdfentry_unmarshal_total, merklizer_unmarshal_total (0 <= slots requested by make <= len(input)), decode_mtp_total, "
+        "dependency_decoder_total_iff_safe, proofs_/cred_/diddoc_/status_/gist_/auth_unmarshal_total, did_resolve_total, validate_status_total, verify_bjj_total, verify_smt_total, verify_proof_total; "
+        "guards_are_needed (13 witnesses: for each repair commit the code before it panics, returns (nil,nil) or requests 2^40 slots), redundant_guards. Per run ~19000 evaluations / 14000 in Coq: "
+        "EXHAUSTIVE removal of optional members of four valid bundles (all 2^k subsets), of the status answer (2^10), DID document (2^12), gist proof (2^6); gob token streams; cycle / shared-node / empty-string "
+        "documents; hostile sibling lists; HTTP answers of both resolvers; HashValue on every Go kind; plus structure-aware mutation of every JSON position into 13 decoders, each risky call under recover, "
+        "watchdog and a child process with RLIMIT_AS.",
+   note="encoding/json, encoding/gob, json-gold and the crypto libraries are assumed total and are only searched. The allocation bound is proved for make([]RDFEntry, n) only; elsewhere measured. "
+        "Observations (outside the quantifier): a json-gold panic in ExpandIri on a null term used as prefix; cubic URDNA2015 on deep nesting. Hook verifiable/verif_hooks_total.go.",
+   technique="Coq proof (totality of control skeletons with explicit Panic/Diverge outcomes, guard-necessity witnesses) + exhaustive optional-member removal and structure-aware mutation search",
+   design="5 C12"),
  "C04": dict(
    text="Theorems (Properties/C04.v) over the executable model of the value-encoding code, for every hasher, lexical form and odd modulus p>=3: "
         "integer types accepted exactly in range and encoded as v / p+v without reduction, injective per type, spelling-independent; booleans; "
